@@ -303,6 +303,7 @@ class World:
         self.fine = bool(case.get('fine'))
         self.cur = {}           # proc -> snapshot object being processed
         self.starts = []        # recorded start_workflow calls
+        self.aborted = []       # exceptions that escaped from process_cron_triggers_v2
         self.events = []        # per step observation
         self.fail_next_start = set()
         self._patch()
@@ -396,7 +397,10 @@ class World:
     def _body(self):
         per = self.m['periodic']
         while True:
-            per.process_cron_triggers_v2(None, None)
+            try:
+                per.process_cron_triggers_v2(None, None)
+            except Exception as e:      # noqa: the periodic task let an exception escape: the rest of the pass is lost
+                self.aborted.append('%s: %s' % (type(e).__name__, str(e)[:120]))
             self._yield(('pass_end',))
 
     def _tls_in(self, i):
@@ -665,6 +669,7 @@ def execute(case, rng=None):
             case.pop('len', None)
             case.pop('rseed', None)
         log['starts'] = list(w.starts)
+        log['aborted'] = list(getattr(w, 'aborted', []))
     finally:
         w.close()
     return log
@@ -687,6 +692,12 @@ def oracle(ctx, case, log):
     trig = log['trig']
     starts = log['starts']
     id2k = {v['id']: k for k, v in trig.items()}
+    # --- a pass never lets an exception escape: a failing trigger (RPC down, a database error of one row) is logged and the
+    # pass goes on with the next trigger; otherwise every trigger ordered after it is starved pass after pass
+    for a in log.get('aborted') or []:
+        bad('pass-aborted:%s' % a.split(':')[0], 'process_cron_triggers_v2 let an exception escape (%s): the triggers after the failing one '
+            'were not evaluated in that pass' % a)
+        break
     # --- context / payload of every start
     for s in starts:
         k = id2k.get(s['snap_id'])
